@@ -64,6 +64,12 @@ Definition elim_last (Y : M) : M :=
   let '(re_, yee) := split_last (last Y []) in
   map (fun row => let '(rb, yie) := split_last row in elim_row rb yie re_ yee) (removelast Y).
 Fixpoint kron_exact (k : nat) (Y : M) : M := match k with O => Y | S k' => kron_exact k' (elim_last Y) end.
+(* the diagonal entry met by an elimination step, and the boolean test that all k successive pivots are non-zero
+   (hypothesis of the composition theorem C28_kron_sequence_is_schur_complement; checked on every observed matrix) *)
+Definition pivot (Y : M) : C := last (last Y []) C0.
+Definition nonzerob (y : C) : bool := negb (qeqb (cnorm2 y) 0).
+Fixpoint pivots_okb (k : nat) (Y : M) : bool :=
+  match k with O => true | S k' => nonzerob (pivot Y) && pivots_okb k' (elim_last Y) end.
 (* one-bus instance of the implementation's formula: the column entry y_ie is taken from the transposed row, y_ei *)
 Definition elim_last_impl (Y : M) : M :=
   let '(re_, yee) := split_last (last Y []) in
@@ -85,7 +91,7 @@ Definition ward_impedances (B : M) (nb : nat) : list (nat * nat * C * C) :=
 (* ---- run wrappers *)
 Definition oM (Y : M) : out := OL (map (fun r => OL (map oc r)) Y).
 Definition run_equivalent (Ys : M) (ni nb ne : nat) (Z : M) : out :=
-  OL [oM (equivalent_Ybus Ys ni nb ne Z); oM (kron_exact ne Ys); OB (G28 Ys ni nb ne)].
+  OL [oM (equivalent_Ybus Ys ni nb ne Z); oM (kron_exact ne Ys); OB (G28 Ys ni nb ne); OB (pivots_okb ne Ys)].
 Definition run_ward (Yeq : M) (nb : nat) : out :=
   let B := sub Yeq (List.length Yeq - nb) nb (List.length Yeq - nb) nb in
   OL [OL (map oc (ward_shunts Yeq nb));
